@@ -74,7 +74,7 @@ def run(ctx):
     c15.run(ctx)
     for o in ctx.obs[before:]:
         o.rule = 'R7.6'
-    for r in ('R15.1', 'R15.2', 'R15.3'):
+    for r in ('R15.1', 'R15.2', 'R15.3', 'R15.4'):
         ctx.rules.pop(r, None)
         ctx.floors.pop(r, None)
 
